@@ -274,14 +274,16 @@ class TestEval:
         self.right = right
         self.containers = list(containers)
 
-    def atom(self, a: ast.AST, rel: str, nonempty: Dict[str, bool]) -> bool:
+    def atom(self, a: ast.AST, rel: str, nonempty: Dict[str, bool], free: Optional[Dict[str, bool]] = None) -> bool:
         s = pf.nsrc(a)
+        if free and s in free:
+            return free[s]
         if s in nonempty:
             return nonempty[s]
         if isinstance(a, ast.Call) and pf.dotted(a.func) == 'len' and len(a.args) == 1 and pf.nsrc(a.args[0]) in nonempty:
             return nonempty[pf.nsrc(a.args[0])]
         if isinstance(a, ast.Call) and pf.dotted(a.func) == 'bool' and len(a.args) == 1:
-            return self.atom(a.args[0], rel, nonempty)
+            return self.atom(a.args[0], rel, nonempty, free)
         if isinstance(a, ast.Compare) and len(a.ops) == 1:
             lhs, rhs, op = a.left, a.comparators[0], a.ops[0]
             ls, rs = pf.nsrc(lhs), pf.nsrc(rhs)
@@ -312,23 +314,46 @@ class TestEval:
                     raise AnalysisError(f'`{s}` depends on the exact length, not only on emptiness (not a recognised guard)')
         raise AnalysisError(f'unrecognised atom `{s}` in guard (known quantities: {self.left}, {self.right}, containers {self.containers})')
 
+    def _free_atoms(self, test: ast.AST) -> List[str]:
+        """Atoms the domain does not interpret but that cannot hide the analysed comparison: plain comparisons / names without calls
+        that do not relate `left` and `right`.  They are enumerated as unconstrained booleans.  Anything else -> AnalysisError."""
+        from . import absdom
+        free: List[str] = []
+        probe_ne = {c: False for c in self.containers}
+        for a in absdom.bool_atoms(test):
+            try:
+                self.atom(a, '==', probe_ne, {})
+                continue
+            except AnalysisError:
+                pass
+            has_call = any(isinstance(x, (ast.Call, ast.Await, ast.Lambda, ast.NamedExpr)) for x in ast.walk(a))
+            relates = mentions(a, self.left) and mentions(a, self.right)
+            touches_container = any(mentions(a, c) for c in self.containers)
+            if has_call or relates or touches_container or not isinstance(a, (ast.Compare, ast.Name, ast.Attribute)):
+                raise AnalysisError(f'unrecognised atom `{pf.nsrc(a)}` in guard (known quantities: {self.left}, {self.right}, containers {self.containers})')
+            free.append(pf.nsrc(a))
+        return free
+
     def rows(self, test: ast.AST) -> List[Tuple[str, Dict[str, bool], bool]]:
+        free = self._free_atoms(test)
         out = []
         for rel in RELS:
             for bits in itertools.product([False, True], repeat=len(self.containers)):
                 ne = dict(zip(self.containers, bits))
-                out.append((rel, ne, self.eval(test, rel, ne)))
+                for fbits in itertools.product([False, True], repeat=len(free)):
+                    out.append((rel, ne, self.eval(test, rel, ne, dict(zip(free, fbits)))))
         return out
 
-    def eval(self, test: ast.AST, rel: str, nonempty: Dict[str, bool]) -> bool:
+    def eval(self, test: ast.AST, rel: str, nonempty: Dict[str, bool], free: Optional[Dict[str, bool]] = None) -> bool:
+        free = free or {}
         if isinstance(test, ast.BoolOp):
-            vals = [self.eval(v, rel, nonempty) for v in test.values]
+            vals = [self.eval(v, rel, nonempty, free) for v in test.values]
             return all(vals) if isinstance(test.op, ast.And) else any(vals)
         if isinstance(test, ast.UnaryOp) and isinstance(test.op, ast.Not):
-            return not self.eval(test.operand, rel, nonempty)
+            return not self.eval(test.operand, rel, nonempty, free)
         if isinstance(test, ast.Constant):
             return bool(test.value)
-        return self.atom(test, rel, nonempty)
+        return self.atom(test, rel, nonempty, free)
 
 
 def mentions(test: ast.AST, text: str) -> bool:
@@ -488,3 +513,158 @@ def method(m: pf.Module, cls: ast.ClassDef, name: str) -> pf.FuncDef:
 
 def body_no_doc(fn: pf.FuncDef) -> List[ast.stmt]:
     return [s for s in fn.body if not (isinstance(s, ast.Expr) and isinstance(s.value, ast.Constant) and isinstance(s.value.value, str))]
+
+
+# --------------------------------------------------------------------------------------
+# weighted-semaphore shapes shared by C16 (FIFOWeightedSemaphore) and C40 (WeightedSemaphore)
+# --------------------------------------------------------------------------------------
+
+
+class Guarded:
+    """A decrement `value -= w` together with the test edge that guards it."""
+
+    def __init__(self, fnname: str, dec: pf.Node, w: str, test: pf.Node, label: str, rows):
+        self.fnname = fnname
+        self.dec = dec
+        self.w = w
+        self.test = test
+        self.label = label
+        self.rows = rows
+
+
+def _names_assigned(n: pf.Node) -> Set[str]:
+    out: Set[str] = set()
+    for e in pf.node_exprs(n):
+        for x in ast.walk(e):
+            if isinstance(x, ast.Name) and isinstance(x.ctx, (ast.Store, ast.Del)):
+                out.add(x.id)
+    return out
+
+
+def guarded_decrements(ctx, m: pf.Module, cls: ast.ClassDef, rule: str, value_src: str, containers: Sequence[str]) -> List[Guarded]:
+    """R(safety): every `value_src -= w` in the class is reached only through a test edge that implies value_src >= w,
+    with no suspension point, no other write of value_src and no rebinding of w in between."""
+    found: List[Guarded] = []
+    for st in cls.body:
+        if not isinstance(st, (ast.FunctionDef, ast.AsyncFunctionDef)):
+            continue
+        fn = st
+        q = f'{cls.name}.{fn.name}'
+        cfg = pf.cfg(fn)
+        # every write of value_src must be a recognised one
+        for n in stmt_nodes(cfg, lambda n: writes_attr(n, value_src)):
+            a = n.ast
+            if isinstance(a, ast.AugAssign) and isinstance(a.op, (ast.Add, ast.Sub)) and pf.nsrc(a.target) == value_src:
+                continue
+            if fn.name == '__init__' and isinstance(a, (ast.Assign, ast.AnnAssign)):
+                continue
+            raise AnalysisError(f'{m.rel}::{q}: unrecognised write of {value_src}: `{pf.nsrc(a)}`')
+        decs = stmt_nodes(cfg, lambda n: n.kind == 'stmt' and isinstance(n.ast, ast.AugAssign) and isinstance(n.ast.op, ast.Sub)
+                          and pf.nsrc(n.ast.target) == value_src)
+        for D in decs:
+            w = pf.nsrc(D.ast.value)  # type: ignore[union-attr]
+            cons = f'{m.rel}::{q}::{pf.nsrc(D.ast)}'
+            ev = TestEval(value_src, w, containers)
+            unknown: List[str] = []
+            weak: List[str] = []
+            good: Optional[Guarded] = None
+            problems: List[str] = []
+            for t in cfg.nodes:
+                if t.kind != 'test' or not mentions(t.ast, value_src):
+                    continue
+                for label in ('T', 'F'):
+                    if not any(lab == label for _, lab in t.succ):
+                        continue
+                    if not every_path_uses_edge(cfg, D, t, label) or not direct(cfg, t, D, label):
+                        continue
+                    try:
+                        rows = ev.rows(t.ast)
+                    except AnalysisError as e:
+                        unknown.append(str(e))
+                        continue
+                    admits_less = [r for r in rows if r[2] == (label == 'T') and r[0] == '<']
+                    if admits_less:
+                        weak.append(f'guard `{pf.nsrc(t.ast)}` ({label}-branch) admits {value_src} < {w}')
+                        continue
+                    mid = between(cfg, t, D, label)
+                    bad_mid = [x for x in mid if pf.node_has_await(x)]
+                    if bad_mid:
+                        problems.append(f'suspension point `{bad_mid[0].text()}` between the guard `{pf.nsrc(t.ast)}` and the decrement: '
+                                        f'another coroutine can take the capacity in between')
+                        continue
+                    wr = [x for x in mid if writes_attr(x, value_src) or (_names_assigned(x) & pf.names_in(D.ast.value))]  # type: ignore[union-attr]
+                    if wr:
+                        problems.append(f'`{wr[0].text()}` changes {value_src} or {w} between the guard and the decrement')
+                        continue
+                    good = Guarded(fn.name, D, w, t, label, rows)
+            if good is not None:
+                ctx.ok(rule, cons, {'guard': pf.nsrc(good.test.ast), 'branch': good.label, 'atomic': True})
+                found.append(good)
+            elif problems:
+                ctx.bad(rule, cons, problems[0], m.path, D.lineno)
+            elif weak:
+                ctx.bad(rule, cons, weak[0] + f': more than the free capacity can be granted ({value_src} goes negative)', m.path, D.lineno)
+            elif unknown:
+                raise AnalysisError(f'{cons}: guard not recognised: {unknown[0]}')
+            else:
+                ctx.bad(rule, cons, f'`{pf.nsrc(D.ast)}` is not dominated by a test implying {value_src} >= {w}: capacity can be over-granted',
+                        m.path, D.lineno)
+    return found
+
+
+class WakeLoop:
+    def __init__(self):
+        self.fn: Optional[pf.FuncDef] = None
+        self.cfg: Optional[pf.CFG] = None
+        self.stmt: Optional[ast.stmt] = None      # the While (or If, when the loop was lost)
+        self.is_loop = False
+        self.head: Optional[ast.Assign] = None    # X, Y = cont[0]
+        self.names: List[str] = []
+        self.fit: Optional[ast.If] = None
+
+
+def wake_loop(m: pf.Module, cls: ast.ClassDef, fname: str, value_src: str, cont_src: str) -> WakeLoop:
+    """Recognise  `while <cont non-empty>: a, b = cont[0]; if <value fits>: wake... else: leave`  in release()."""
+    fn = method(m, cls, fname)
+    wl = WakeLoop()
+    wl.fn = fn
+    wl.cfg = pf.cfg(fn)
+    ev = TestEval('?', '?', [cont_src])
+    cands = []
+    for n in pf.walk_shallow(fn):
+        if isinstance(n, (ast.While, ast.If)) and mentions(n.test, cont_src):
+            try:
+                rows = ev.rows(n.test)
+            except AnalysisError:
+                continue
+            if all(r[2] == r[1][cont_src] for r in rows):
+                cands.append(n)
+    if len(cands) != 1:
+        raise AnalysisError(f'{m.rel}::{cls.name}.{fname}: expected exactly one `while {cont_src}:` wake loop, found {len(cands)}')
+    wl.stmt = cands[0]
+    wl.is_loop = isinstance(cands[0], ast.While)
+    body = cands[0].body
+    heads = [s for s in body if isinstance(s, ast.Assign) and len(s.targets) == 1 and isinstance(s.targets[0], ast.Tuple)
+             and all(isinstance(e, ast.Name) for e in s.targets[0].elts) and isinstance(s.value, ast.Subscript) and pf.nsrc(s.value.value) == cont_src]
+    if len(heads) != 1:
+        raise AnalysisError(f'{m.rel}::{cls.name}.{fname}: head of the waiter container is not read by one tuple-unpacking assignment')
+    wl.head = heads[0]
+    wl.names = [e.id for e in heads[0].targets[0].elts]  # type: ignore[attr-defined,union-attr]
+    fits = [s for s in ast.walk(cands[0]) if isinstance(s, ast.If) and s is not cands[0] and mentions(s.test, value_src)]
+    if len(fits) != 1:
+        raise AnalysisError(f'{m.rel}::{cls.name}.{fname}: expected one fit test on {value_src} in the wake loop, found {len(fits)}')
+    wl.fit = fits[0]
+    return wl
+
+
+def blocked(ctx, because: str, *rules: str) -> None:
+    """Dependent rule instances cannot be evaluated because a (new, not already listed) violation of rule `because` has been
+    reported on the construct they build on; the run ends with exit 1 anyway, so the vacuity minimum of the dependent rules is
+    waived for this run."""
+    from .common import load_known_findings
+    listed = {(k['property'], k['key']) for k in load_known_findings().get('findings', [])}
+    fresh = [f for f in ctx.findings if f.rule == because and (ctx.pid, f.key) not in listed]
+    if not fresh:
+        raise AnalysisError(f'internal: dependent checks of {rules} skipped without a reported violation of {because}')
+    for r in rules:
+        ctx.min_counts[r] = 0
